@@ -87,11 +87,12 @@ def run(chk):
     if not sinks:
         chk.ok("R19.1", "no-sink-reached", f"{len(t.vars)} tainted variables, {len(t.fields)} tainted fields, 0 sinks", "")
     # R19.2: the merged dict is a new object
+    from ..terms import is_call, call_arg
+    from .c11 import _merge_parts
     mk = ix.get_method("LogicalFile", "_make_multi_frame_data")
-    chk.consult(mk)
-    ctor = [n for n in walk_local(mk.node) if isinstance(n, ast.Call) and "DictDataWrapper" in norm(n.func)]
-    ok = bool(ctor) and all(isinstance(c.args[0], ast.BinOp) and isinstance(c.args[0].op, ast.BitOr) for c in ctor
-                            if c.args)
+    ms = chk.summary(mk)
+    ctor = ms.all_calls("DictDataWrapper")
+    ok = bool(ctor) and all(call_arg(c, 0) is not None and len(_merge_parts(call_arg(c, 0))) >= 2 for c in ctor)
     chk.require(ok, "R19.2", "merged-dict-is-new",
                 "the dict handed to the wrapper can be the caller's own dict object (later stores into it would change "
                 "the caller's dict)", mk.where)
